@@ -67,25 +67,6 @@ Definition snap_eqb (x y : snap) : bool :=
   (sn_max x =? sn_max y) && (sn_init x =? sn_init y) && (sn_conn x =? sn_conn y)%Z &&
   list_eqb ssnap_eqb (sn_streams x) (sn_streams y).
 
-Definition pair_eqb {A B} (fa : A -> A -> bool) (fb : B -> B -> bool) (x y : A * B) : bool :=
-  fa (fst x) (fst y) && fb (snd x) (snd y).
-
-Definition wframe_eqb (x y : wframe) : bool :=
-  match x, y with
-  | WData i e d, WData i' e' d' => (i =? i') && Bool.eqb e e' && str_eqb d d'
-  | WHeaders i e h p f, WHeaders i' e' h' p' f' => (i =? i') && Bool.eqb e e' && Bool.eqb h h' && prio_eqb p p' && str_eqb f f'
-  | WCont i h f, WCont i' h' f' => (i =? i') && Bool.eqb h h' && str_eqb f f'
-  | WPush i q h f, WPush i' q' h' f' => (i =? i') && (q =? q') && Bool.eqb h h' && str_eqb f f'
-  | WPrio i p, WPrio i' p' => (i =? i') && prio_eqb p p'
-  | WRst i c, WRst i' c' => (i =? i') && (c =? c')
-  | WSettings l, WSettings l' => list_eqb (pair_eqb N.eqb N.eqb) l l'
-  | WSettingsAck, WSettingsAck => true
-  | WPing a d, WPing a' d' => Bool.eqb a a' && str_eqb d d'
-  | WGoAway a c d, WGoAway a' c' d' => (a =? a') && (c =? c') && str_eqb d d'
-  | WWinUpd i n, WWinUpd i' n' => (i =? i') && (n =? n')
-  | _, _ => false
-  end.
-
 (* ---- one observed step *)
 Record ostep := mkO {
   o_ev : event;
@@ -175,18 +156,7 @@ Definition c10_fidelity_dir (x : side) (c : hcase) : bool :=
 Definition c10_fidelity (c : hcase) : bool := c10_fidelity_dir Cl c && c10_fidelity_dir Sv c.
 
 (* connection-level frames are relayed one for one, to the other endpoint, in the same step *)
-Definition is_conn (f : wframe) : bool :=
-  match f with WSettings _ => true | WSettingsAck => true | WPing _ _ => true | WGoAway _ _ _ => true | _ => false end.
-Definition conn_step (o : ostep) : bool :=
-  let from := e_from (o_ev o) in
-  let to_from := match from with Cl => o_toC o | Sv => o_toS o end in
-  let to_other := match from with Cl => o_toS o | Sv => o_toC o end in
-  match filter is_conn to_from with [] => true | _ => false end &&
-  match o_status o with
-  | Ok => list_eqb wframe_eqb (filter is_conn to_other) (filter is_conn (r2w (e_frame (o_ev o))))
-  | _ => true
-  end.
-Definition c10_conn (c : hcase) : bool := forallb conn_step (h_steps c).
+Definition c10_conn (c : hcase) : bool := forallb conn_stepb (trace_of c).
 
 (* no frame a conforming endpoint may send makes the relay fail *)
 Definition c10_accepts (c : hcase) : bool :=
@@ -229,3 +199,23 @@ Definition bad {A} (f : A -> bool) (l : list A) : list N := bad_from f 0 l.
 
 (* per case: the failing predicate numbers (for the report) *)
 Definition why {A} (f : A -> list N) (l : list A) : list (list N) := map f l.
+
+(* ---- forwardPreface observed through a reader that returns the given chunks *)
+Record pcase := mkP { p_reads : list (list N); p_ok : bool; p_forwarded : list N; p_left : list N }.
+
+Definition preface_model_ok (c : pcase) : bool :=
+  let '(o, rest) := forward_preface (p_reads c) in
+  match o with
+  | Some p => p_ok c && str_eqb p (p_forwarded c) && str_eqb (concat rest) (p_left c)
+  | None => negb (p_ok c)
+  end.
+
+(* a client that starts with the connection preface gets exactly the preface forwarded and the rest is
+   left for the framer; anything else is refused *)
+Definition preface_prop_ok (c : pcase) : bool :=
+  let all := concat (p_reads c) in
+  if has_prefix all connection_preface
+  then p_ok c && str_eqb (p_forwarded c) connection_preface &&
+       str_eqb (p_left c) (skipn (length connection_preface) all)
+  else negb (p_ok c).
+Definition preface_failures (c : pcase) : list N := if preface_prop_ok c then [] else [5].
